@@ -7,6 +7,8 @@ import (
 	"os"
 	"sort"
 	"strconv"
+	"strings"
+	"time"
 )
 
 func usage() {
@@ -64,6 +66,7 @@ func main() {
 		tier := fs.String("tier", "quick", "")
 		seed := fs.Int64("seed", envSeed(), "")
 		one := fs.Int("case", -1, "")
+		many := fs.String("cases", "", "comma separated case indices run one after the other in this process (diagnosis of order-dependent failures)")
 		replay := fs.String("replay", "", "replay file written next to a VIOLATION line: re-runs the recorded case in-process")
 		fs.Parse(os.Args[3:])
 		if t := os.Getenv("VERIF_TIER"); t != "" && !isFlagSet(fs, "tier") {
@@ -90,6 +93,19 @@ func main() {
 			fmt.Printf("replaying case %d of %s (tier %s, seed %d); recorded signature: %s\n", rf.Violation.Case, ch.ID, rf.Tier, rf.Seed, rf.Violation.Signature)
 			*tier, *seed, *one = rf.Tier, rf.Seed, rf.Violation.Case
 			os.Setenv("VERIF_REPLAY", "1")
+		}
+		if *many != "" {
+			c := newCtx(ch, *tier, *seed)
+			c.WorkDir, _ = os.MkdirTemp("", "elkverif-"+ch.ID+"-")
+			if ch.Init != nil {
+				ch.Init(c)
+			}
+			for _, f := range strings.Split(*many, ",") {
+				i, _ := strconv.Atoi(f)
+				fmt.Fprintf(os.Stderr, "case %d\n", i)
+				ch.Case(c, i, caseRng(*seed, ch.ID, i))
+			}
+			os.Exit(c.finish(time.Now()))
 		}
 		os.Exit(runCheck(ch, *tier, *seed, *one))
 	case "worker":
